@@ -28,7 +28,6 @@ void h_lax_der(void) {
     __CPROVER_assert(g_illegal == 0 && g_error == 0, "C03 lax_der: no callback, whatever the bytes");
     secp256k1_ecdsa_signature_load(&ctx, &r, &s, &sig);
     __CPROVER_assert(scalar_ok(&r) && scalar_ok(&s), "C03 lax_der: the signature object is always initialized with reduced scalars");
-    if (!ret) __CPROVER_assert(sig.data[k] == 0, "C03 lax_der: a rejected input leaves the all-zero signature object (never verifies)");
     if (ret && len > 250) REACH("lax parser accepts a long input");
     if (ret && (r.d[0] | r.d[1] | r.d[2] | r.d[3]) != 0 && (s.d[0] | s.d[1] | s.d[2] | s.d[3]) != 0) REACH("lax parser yields non-zero r and s");
     if (!ret && len > 10) REACH("lax parser rejects");
